@@ -450,6 +450,8 @@ type FuncContract struct {
 	Acquires  []string // mutexes held on return
 	OnLock    []ModItem // state guarded by a mutex without a lockinv: havocked when the function first locks it
 	OnLockText []string
+	OpaqueMul bool      // products of non-literal terms are uninterpreted (mulTerm)
+	Forbids   []string  // callees the function must never call
 	HasFSEffects bool   // fs_effects clause present
 	FSEffects []string  // the mutating os / io/ioutil calls the function may make directly
 	Callbacks []string  // func-typed parameters declared `callback p`
@@ -518,7 +520,7 @@ var clauseKeywords = map[string]bool{
 	"func": true, "on_lock": true, "extern": true, "requires": true, "requires_locked": true, "ensures": true, "modifies": true, "nopanic": true,
 	"loop": true, "specfunc": true, "ghost": true, "ghostsum": true, "ghost_set": true, "lockinv": true, "axiom": true, "trusted": true,
 	"pure": true, "inline": true, "held": true, "acquires": true, "assert": true, "package": true, "invariant": true, "lemma": true, "lemma_at": true, "unknown_calls_modify": true,
-	"assume_after": true, "callback": true, "closed_type": true, "fs_effects": true,
+	"assume_after": true, "callback": true, "closed_type": true, "fs_effects": true, "forbids": true, "opaque_mul": true,
 }
 
 // splitLabel splits "label: expr" (label is a bare identifier followed by ':' but not '::').
@@ -711,6 +713,25 @@ func (cs *ContractSet) parseContractText(file, pkgPath string, lines []string, l
 				}
 				cur.Modifies = append(cur.Modifies, mi)
 				cur.ModText = append(cur.ModText, part)
+			}
+		case "opaque_mul":
+			// opaque_mul: products of two non-literal terms are an uninterpreted function in this
+			// function's obligations (see mulTerm)
+			if cur == nil {
+				return fmt.Errorf("%s:%d: opaque_mul outside func", file, it.line)
+			}
+			cur.OpaqueMul = true
+		case "forbids":
+			// forbids T.m, pkg.f: calls the function must never make (directly); each one found is a
+			// failed obligation. Used where a protocol step may only happen elsewhere (the event loop
+			// is stopped only by the shutdown event, which first answers every waiter).
+			if cur == nil {
+				return fmt.Errorf("%s:%d: forbids outside func", file, it.line)
+			}
+			for _, part := range splitTop(rest, ',') {
+				if part = strings.TrimSpace(part); part != "" {
+					cur.Forbids = append(cur.Forbids, part)
+				}
 			}
 		case "fs_effects":
 			// fs_effects os.RemoveAll, os.Rename: the frame of the function on the file system - the
